@@ -210,7 +210,9 @@ class relativedelta(object):
                 yday = nlyearday
             elif yearday:
                 yday = yearday
-                if yearday > 59:
+                if 59 < yearday < 366:
+                    # Day 366 is the last day of a leap year (clipped to the
+                    # last day of other years), so it takes no leap day off.
                     self.leapdays = -1
             if yday:
                 ydayidx = [31, 59, 90, 120, 151, 181, 212,
